@@ -30,7 +30,16 @@ REAL = spherical_harmonic.RealSphericalHarmonics
 def draw_grid_cfg(rng: random.Random, kmin=4, kmax=12, model=False) -> dict:
   """A horizontal discretisation. `model=True` restricts to grids on which the
   model equations are well defined (no nodes at the poles) and resolved."""
-  if rng.random() < 0.75:
+  r0 = rng.random()
+  if r0 < 0.14:
+    # "the number of wavenumbers and nodes is entirely flexible": a hand-built grid
+    # with more total than longitudinal wavenumbers and its own node counts
+    m = rng.randint(kmin, max(kmin, kmax - 2))
+    l = m + rng.randint(1, 4)
+    lon = 3 * m + 1 + rng.randint(0, 4)
+    lat = -(-(3 * l + 1) // 2) + rng.randint(0, 3)
+    cfg = {'kind': 'custom', 'k': m, 'L': l, 'lon': lon, 'lat': lat}
+  elif r0 < 0.78:
     cfg = {'kind': 'with_wavenumbers', 'k': rng.randint(kmin, kmax),
            'dealiasing': rng.choice(['quadratic', 'quadratic', 'cubic'] if model
                                     else ['linear', 'quadratic', 'cubic'])}
@@ -55,6 +64,10 @@ def build_grid(cfg: dict, impl, mesh=None) -> spherical_harmonic.Grid:
   if cfg['kind'] == 'with_wavenumbers':
     g = spherical_harmonic.Grid.with_wavenumbers(
         cfg['k'], dealiasing=cfg['dealiasing'], **kw)
+  elif cfg['kind'] == 'custom':
+    g = spherical_harmonic.Grid(
+        longitude_wavenumbers=cfg['k'], total_wavenumbers=cfg['L'],
+        longitude_nodes=cfg['lon'], latitude_nodes=cfg['lat'], **kw)
   else:
     g = spherical_harmonic.Grid.construct(cfg['k'], cfg['g'], **kw)
   if mesh is not None:
